@@ -87,7 +87,7 @@ def same_modulo_last_digit(o1, o2):
 
 INFO, run, replay = sessprop.make(
     'C16', ['out.msg', 'out.cmd*', 'final.conn.msgs.time', 'final.conn.objects.life'],
-    ['Proofs/ControllerProofs.v', 'Proofs/SessionProofs.v'],
+    ['Proofs/ControllerProofs.v', 'Proofs/SessionProofs.v', 'Proofs/SeparatorRuns.v'],
     ['times are exact decimals (microseconds) in the model; binary64 rounding of the implementation is outside it: displayed times are compared with half-a-unit-in-the-last-digit latitude and a separator at a gap of exactly 1 s may or may not appear',
      'tied to core/wl/message.py, parse.message and Controller._show_message by comparing the time column and separator lines of every shown message (live and in listings, under filters), both decimal marks, plus the shift metamorphic check on the implementation'],
     'C16_shift_invariant / C16_separator_iff', gen, nontriv,
